@@ -349,6 +349,13 @@ def check_datastore(case):
     created = set()
     skipped = 0
     for step, op in enumerate(case['ops']):
+      if op[0] == 'create_sop':
+        # the service numbers a client's operations densely (max + 1); the
+        # backends may count differently for sparse numbers, which no service
+        # call sequence can produce
+        n = len([r for r in res_set
+                 if r[0] == 'sop' and r[1:4] == (op[1], op[2], op[3])])
+        op = op[:4] + [n + 1]
       rs = [(_ds_call(s.datastore, op, existing, res_set), b)
             for b, s in servers]
       if rs[0][0] == 'SKIP':
